@@ -637,12 +637,16 @@ func (vc *VC) buildQuery(o *Obligation) string {
 	}
 	// base-prelude functions mentioned by this VC select the prelude axioms about them
 	bt := body.String()
+	used := map[string]bool{} // local copy: queries are built concurrently
+	for k, v := range vc.preludeUsed {
+		used[k] = v
+	}
 	for _, bf := range vc.eng.baseFuncs {
-		if !vc.preludeUsed[bf] && strings.Contains(bt, bf) {
-			vc.preludeUsed[bf] = true
+		if !used[bf] && strings.Contains(bt, bf) {
+			used[bf] = true
 		}
 	}
-	body.WriteString(vc.eng.preludeText(vc.preludeUsed))
+	body.WriteString(vc.eng.preludeText(used))
 	basePrelude := neededBase(body.String())
 	if o.Expect == "sat" {
 		// reachability/vacuity covers: quantified axioms are dropped (they only constrain
@@ -653,10 +657,10 @@ func (vc *VC) buildQuery(o *Obligation) string {
 				sb.WriteString(ln + "\n")
 			}
 		}
-		sb.WriteString(vc.eng.preludeTextOpt(vc.preludeUsed, false))
+		sb.WriteString(vc.eng.preludeTextOpt(used, false))
 	} else {
 		sb.WriteString(basePrelude)
-		sb.WriteString(vc.eng.preludeText(vc.preludeUsed))
+		sb.WriteString(vc.eng.preludeText(used))
 	}
 	for _, d := range vc.decls {
 		sb.WriteString(d)
